@@ -45,6 +45,28 @@ def _assign_effect(fn, n, var_id, R, cur):
     return cur
 
 
+def conditional_alts(fn, n, var_id, R):
+    """DeclStmt / assignment of the local whose value is  c ? a : b  -> [(cond render, truth, value node)]"""
+    rhs = None
+    if n['k'] == 'DeclStmt':
+        for d in n['decls']:
+            if d['id'] == var_id and 'init' in d:
+                rhs = d['init']
+    elif n['k'] == 'BinaryOperator' and n['op'] == '=':
+        t = fn.nodes[fn.strip(n['ch'][0], 'all')]
+        if t['k'] == 'DeclRefExpr' and t['decl'].get('id') == var_id and t['decl'].get('dk') == 'local':
+            rhs = n['ch'][1]
+    if rhs is None:
+        return None
+    r = fn.nodes[fn.strip(rhs, 'all')]
+    if r['k'] != 'ConditionalOperator':
+        return None
+    key = R.render(r['cond'])
+    if 'local:' in key:
+        return None
+    return [(key, True, r['lhs']), (key, False, r['rhs'])]
+
+
 def subst(fn, i, var_id, R, cur):
     """polynomial of expression i where occurrences of var stand for `cur`"""
     p = P.poly(fn, i, R)
@@ -104,13 +126,16 @@ def values_at(fn, var_id, use_node, max_paths=64, want_cases=False):
         if mv in g.reach([mv]):
             raise Undecided('the local is modified inside a loop')
 
-    def walk(v, cur, val, seen):
+    def walk(v, cur, val, seen, skip_first=False):
         if npaths[0] > max_paths:
             raise Undecided('too many paths')
+        first = True
         while True:
             if v in seen:
                 return   # a loop that does not modify the local: one traversal is enough
             seen = seen | {v}
+            skip = skip_first and first
+            first = False
             if v == use_v:
                 npaths[0] += 1
                 cases.append((cur, dict(val)))
@@ -122,8 +147,23 @@ def values_at(fn, var_id, use_node, max_paths=64, want_cases=False):
             if isinstance(v, str):
                 return
             nid = g.node_of(v)
-            if nid is not None:
-                cur = _assign_effect(fn, fn.nodes[nid], var_id, R, cur)
+            if nid is not None and not skip:
+                alts = conditional_alts(fn, fn.nodes[nid], var_id, R)
+                if alts:
+                    todo = []
+                    for key, truth, vn in alts:
+                        if key in val and val[key] != truth:
+                            continue
+                        nv = dict(val)
+                        nv[key] = truth
+                        todo.append((subst(fn, vn, var_id, R, cur), nv))
+                    if not todo:
+                        return
+                    for c2, v2 in todo[1:]:
+                        walk(v, c2, v2, seen - {v}, skip_first=True)
+                    cur, val = todo[0]
+                else:
+                    cur = _assign_effect(fn, fn.nodes[nid], var_id, R, cur)
             if v in g.branch and g.branch[v]['cond'] >= 0 and len(g.branch[v]['targets']) == 2 and not g.branch[v]['tempdtor']:
                 key = R.render(g.branch[v]['cond'])
                 stable = 'local:' not in key
